@@ -1314,7 +1314,7 @@ class Interp:
                 return IntV("lin", lin=Lin.sym(("count", v.loop.ident)))
             if isinstance(v, PduV):
                 return IntV("lin", lin=L)
-            return opaque("len(?)")
+            return opaque(f"len({v!r})")
         if short == "int":
             v = pos[0]
             if isinstance(v, CondV):
@@ -1710,7 +1710,7 @@ class Interp:
         if isinstance(base, (ClassV, ConstV, UnionV)):
             return ConstV(("external", "generic-alias"))
         if isinstance(base, UnknownV):
-            return UnknownV("index")
+            return UnknownV(f"{base.why}[..]")
         if isinstance(base, DictV):
             return UnknownV("dict lookup")
         raise AnalysisError(f"{where}: subscript of {base!r}")
